@@ -170,7 +170,7 @@ fn model(plan: &Plan, spec: &SpawnSpec, spawn_idx: usize) -> ModelOut {
     }
     // program lookup
     let cmd: Vec<u8> = spec.executable.clone().unwrap_or_else(|| spec.argv[0].clone());
-    let path_var = plan.parent.env.iter().find(|(k, _)| k == "PATH").map(|(_, v)| v.as_bytes().to_vec());
+    let path_var = plan.parent.path_bytes();
     let mut cands: Vec<Vec<u8>> = vec![];
     let search = !cmd.contains(&b'/') && path_var.as_ref().map(|p| !p.is_empty()).unwrap_or(false);
     if search {
@@ -831,7 +831,13 @@ fn judge_child(plan: &Plan, spec: &SpawnSpec, si: usize, pid: i32, mo: &ModelOut
             }
             m
         }
-        None => plan.parent.env.iter().map(|(k, v)| (k.as_bytes().to_vec(), v.as_bytes().to_vec())).collect(),
+        None => {
+            let mut m: BTreeMap<Vec<u8>, Vec<u8>> = plan.parent.env.iter().map(|(k, v)| (k.as_bytes().to_vec(), v.as_bytes().to_vec())).collect();
+            if let Some(raw) = &plan.parent.path_raw {
+                m.insert(b"PATH".to_vec(), raw.clone());
+            }
+            m
+        }
     };
     if got_env != want_env || (spec.env.is_some() && rec.env.len() != want_env.len()) {
         let missing = want_env.keys().filter(|k| !got_env.contains_key(*k)).count();
@@ -1026,13 +1032,13 @@ fn small_child(rng: &mut Rng) -> Vec<Op> {
 
 fn base_fs(plan: &mut Plan, rng: &mut Rng) {
     plan.add_program("prog", small_child(rng));
-    plan.fs.push(FsEntry { path: "/work/sub".into(), node: Node::Dir { searchable: true } });
-    plan.fs.push(FsEntry { path: "/work/locked".into(), node: Node::Dir { searchable: false } });
-    plan.fs.push(FsEntry { path: "/work/file".into(), node: Node::NoExec });
+    plan.fs.push(FsEntry { path: "/work/sub".into(), node: Node::Dir { searchable: true }, raw: None });
+    plan.fs.push(FsEntry { path: "/work/locked".into(), node: Node::Dir { searchable: false }, raw: None });
+    plan.fs.push(FsEntry { path: "/work/file".into(), node: Node::NoExec, raw: None });
     let id = plan.programs.len();
     plan.programs.push(small_child(rng));
-    plan.fs.push(FsEntry { path: "/work/sub/tool".into(), node: Node::Exe { prog: id } });
-    plan.fs.push(FsEntry { path: "/work/tool".into(), node: Node::Exe { prog: id } });
+    plan.fs.push(FsEntry { path: "/work/sub/tool".into(), node: Node::Exe { prog: id }, raw: None });
+    plan.fs.push(FsEntry { path: "/work/tool".into(), node: Node::Exe { prog: id }, raw: None });
 }
 
 fn gen_streams(rng: &mut Rng, spec: &mut SpawnSpec, allow_invalid: bool) {
@@ -1252,7 +1258,7 @@ pub fn generate(prop: &str, rng: &mut Rng, plan: &mut Plan, index: u64) {
                 }
                 55 => spec.argv[0] = b"/work/file/x".to_vec(),
                 56 => {
-                    plan.fs.push(FsEntry { path: "/work/script".into(), node: Node::NotBinary });
+                    plan.fs.push(FsEntry { path: "/work/script".into(), node: Node::NotBinary, raw: None });
                     spec.argv[0] = b"/work/script".to_vec();
                 }
                 57 => {
@@ -1297,7 +1303,7 @@ pub fn generate(prop: &str, rng: &mut Rng, plan: &mut Plan, index: u64) {
                 };
                 if !dir.is_empty() && !dir.contains("missing") && dir != "/work/locked" && dir != "/work/file" {
                     let full = if dir.starts_with('/') { dir.clone() } else { format!("/work/{}", dir) };
-                    plan.fs.push(FsEntry { path: full.clone(), node: Node::Dir { searchable: true } });
+                    plan.fs.push(FsEntry { path: full.clone(), node: Node::Dir { searchable: true }, raw: None });
                     // candidate kind in this directory
                     let node = match rng.below(7) {
                         0 | 1 => Some(Node::Exe { prog: 0 }),
@@ -1314,11 +1320,11 @@ pub fn generate(prop: &str, rng: &mut Rng, plan: &mut Plan, index: u64) {
                         } else {
                             n
                         };
-                        plan.fs.push(FsEntry { path: format!("{}/{}", full, cmd), node: n });
+                        plan.fs.push(FsEntry { path: format!("{}/{}", full, cmd), node: n, raw: None });
                     }
                 }
                 if dir == "/work/locked" && rng.chance(1, 2) {
-                    plan.fs.push(FsEntry { path: format!("/work/locked/{}", cmd), node: Node::Exe { prog: 0 } });
+                    plan.fs.push(FsEntry { path: format!("/work/locked/{}", cmd), node: Node::Exe { prog: 0 }, raw: None });
                 }
                 path_entries.push(dir);
             }
@@ -1332,7 +1338,31 @@ pub fn generate(prop: &str, rng: &mut Rng, plan: &mut Plan, index: u64) {
             if path.is_empty() {
                 path = ":".into();
             }
-            plan.parent.env[0].1 = path;
+            plan.parent.env[0].1 = path.clone();
+            if rng.chance(1, 5) {
+                // a PATH that is not valid UTF-8: one more directory whose name contains 0xff, holding a candidate
+                let mut dir = b"/p/odd".to_vec();
+                dir.push(0xff);
+                dir.extend_from_slice(b"dir");
+                let mut cand = dir.clone();
+                cand.push(b'/');
+                cand.extend_from_slice(cmd.as_bytes());
+                let id = plan.programs.len();
+                plan.programs.push(vec![Op::Exit { code: 77 }]);
+                plan.fs.push(FsEntry { path: String::new(), node: Node::Dir { searchable: true }, raw: Some(dir.clone()) });
+                plan.fs.push(FsEntry { path: String::new(), node: Node::Exe { prog: id }, raw: Some(cand) });
+                let mut raw = path.as_bytes().to_vec();
+                if rng.chance(1, 2) {
+                    raw.push(b':');
+                    raw.extend_from_slice(&dir);
+                } else {
+                    let mut r2 = dir.clone();
+                    r2.push(b':');
+                    r2.extend_from_slice(&raw);
+                    raw = r2;
+                }
+                plan.parent.path_raw = Some(raw);
+            }
             if rng.chance(1, 4) {
                 plan.parent.cred = Cred::user(1000, 1000);
             }
@@ -1340,14 +1370,14 @@ pub fn generate(prop: &str, rng: &mut Rng, plan: &mut Plan, index: u64) {
             match rng.below(8) {
                 0 => {
                     // a name with a slash: relative to the child's cwd
-                    plan.fs.push(FsEntry { path: format!("/work/sub/{}", cmd), node: Node::Exe { prog: 0 } });
+                    plan.fs.push(FsEntry { path: format!("/work/sub/{}", cmd), node: Node::Exe { prog: 0 }, raw: None });
                     spec.argv[0] = format!("./{}", cmd).into_bytes();
                     spec.cwd = Some(b"/work/sub".to_vec());
                 }
                 1 => {
                     spec.argv[0] = format!("sub/{}", cmd).into_bytes();
                     if rng.chance(1, 2) {
-                        plan.fs.push(FsEntry { path: format!("/work/sub/{}", cmd), node: Node::Exe { prog: 0 } });
+                        plan.fs.push(FsEntry { path: format!("/work/sub/{}", cmd), node: Node::Exe { prog: 0 }, raw: None });
                     }
                 }
                 2 => {
@@ -1377,13 +1407,13 @@ pub fn generate(prop: &str, rng: &mut Rng, plan: &mut Plan, index: u64) {
             for i in 0..nent {
                 let l = if i == longest_at { rng.range(100, 250) as usize } else { rng.range(1, 40) as usize };
                 let d = format!("/q/{}{}", "e".repeat(l), i);
-                plan.fs.push(FsEntry { path: d.clone(), node: Node::Dir { searchable: true } });
+                plan.fs.push(FsEntry { path: d.clone(), node: Node::Dir { searchable: true }, raw: None });
                 entries.push(d);
             }
             let succeed = rng.chance(2, 3);
             if succeed && nent > 0 {
                 let at = rng.below(nent as u64) as usize;
-                plan.fs.push(FsEntry { path: format!("{}/{}", entries[at], cmd), node: Node::Exe { prog: 0 } });
+                plan.fs.push(FsEntry { path: format!("{}/{}", entries[at], cmd), node: Node::Exe { prog: 0 }, raw: None });
             }
             if nent > 0 && rng.chance(2, 3) {
                 plan.parent.env[0].1 = entries.join(":");
@@ -1406,7 +1436,7 @@ pub fn generate(prop: &str, rng: &mut Rng, plan: &mut Plan, index: u64) {
                     p.push('/');
                     p.push_str(&"c".repeat(seg));
                 }
-                plan.fs.push(FsEntry { path: p.clone(), node: Node::Dir { searchable: true } });
+                plan.fs.push(FsEntry { path: p.clone(), node: Node::Dir { searchable: true }, raw: None });
                 if rng.chance(1, 6) {
                     spec.cwd = Some(format!("{}/missing", p).into_bytes());
                 } else {
@@ -1434,7 +1464,7 @@ pub fn generate(prop: &str, rng: &mut Rng, plan: &mut Plan, index: u64) {
                     // consequence: producer whose consumer goes away
                     let id = plan.programs.len();
                     plan.programs.push(vec![Op::Flood { fd: 1, stream: 1, chunk: 4096, max: 1 << 30 }]);
-                    plan.fs.push(FsEntry { path: "/bin/flood".into(), node: Node::Exe { prog: id } });
+                    plan.fs.push(FsEntry { path: "/bin/flood".into(), node: Node::Exe { prog: id }, raw: None });
                     spec.argv[0] = b"/bin/flood".to_vec();
                     spec.stdout = RedirSpec::Pipe;
                     if spec.stderr == RedirSpec::Merge {
